@@ -135,6 +135,11 @@ impl<P: MNT4Config> MNT4<P> {
     }
 
     pub fn ate_miller_loop(p: &G1Prepared<P>, q: &G2Prepared<P>) -> Fp4<P::Fp4Config> {
+        // e(P, 0) = 1
+        if q.is_zero() {
+            return <Fp4<P::Fp4Config>>::one();
+        }
+
         let l1_coeff = Fp2::new(p.x, P::Fp::zero()) - &q.x_over_twist;
 
         let mut f = <Fp4<P::Fp4Config>>::one();
